@@ -21,7 +21,7 @@ pub enum Task {
     RoundTrip { len: usize, repetitive: bool },
     /// as RoundTrip, but the query for chunk number `victim` (0 = data map chunk) is answered
     /// `how`: 0 not found, 1 timeout, 2 another valid chunk of the same data, 3 a foreign valid
-    /// chunk, 4 right bytes under the wrong record kind, 5 bytes that do not deserialise
+    /// chunk, 4 right bytes under the wrong record kind, 5 bytes that do not deserialise, 6 another valid chunk under its own key, 7 other content labelled with the requested address
     DataWithFault { len: usize, victim: u32, how: u8 },
     /// chunk_get of one chunk with a byzantine answer (`how` as above, 2..5)
     ChunkGet { len: usize, how: u8 },
@@ -114,8 +114,8 @@ impl Sim for ClientSim {
             }
             ("C14", _) => Task::DataWithFault { len: interesting_len(rng, ctx.tier), victim: rng.below(1 << 16) as u32, how: rng.below(2) as u8 },
             _ => match rng.below(if SMALL_CHUNK_BUILD { 2 } else { 4 }) {
-                0 => Task::DataWithFault { len: interesting_len(rng, ctx.tier), victim: rng.below(1 << 16) as u32, how: 2 + rng.below(5) as u8 },
-                1 => Task::ChunkGet { len: rng.urange(3, 5000), how: 2 + rng.below(5) as u8 },
+                0 => Task::DataWithFault { len: interesting_len(rng, ctx.tier), victim: rng.below(1 << 16) as u32, how: 2 + rng.below(6) as u8 },
+                1 => Task::ChunkGet { len: rng.urange(3, 5000), how: 2 + rng.below(6) as u8 },
                 _ => {
                     let n = rng.urange(0, 8);
                     // swarm knob: few distinct versions, so that identical copies reach the read's quorum
